@@ -798,6 +798,22 @@ class Tr:
                     return ('EIf', c, self.stmts(rest, env, want, k, cut), ('EPanic',))
                 if nm in ('unreachable', 'panic'):
                     return ('EPanic',)
+                if nm == 'zero_buf':
+                    # zero_buf!(buf) / zero_buf!(&mut buf[lo..]): the buffer content is not part of the
+                    # translated view (only its length is); what remains is the slice bounds check
+                    toks = e[2][0]
+                    ops = [t[1] for t in toks]
+                    if '[' in ops and '..' in ops:
+                        i, j = ops.index('['), ops.index('..')
+                        base = [t for t in toks[:i] if t not in (('op', '&'), ('id', 'mut'))]
+                        lo = P(toks[i + 1:j] + [('eof', '')]).parse_expr() if j > i + 1 else ('lit', '0', None)
+                        hi_t = toks[j + 1:ops.index(']', j)]
+                        blen = ('mcall', P(base + [('eof', '')]).parse_expr(), 'len', [])
+                        hi = P(hi_t + [('eof', '')]).parse_expr() if hi_t else blen
+                        c1, _ = self.expr(('bin', '<=', lo, hi), env, 'bool')
+                        c2, _ = self.expr(('bin', '<=', hi, blen), env, 'bool')
+                        return ('EIf', c1, ('EIf', c2, self.stmts(rest, env, want, k, cut), ('EPanic',)), ('EPanic',))
+                    return self.stmts(rest, env, want, k, cut)
                 raise Untranslatable('macro stmt ' + nm)
             if e[0] == 'return':
                 rw, outvars = self.ret_stack[-1]
